@@ -364,7 +364,7 @@ Section Foreign.
       unfold do_stat in D. destruct (faulty e s'); injection D; intros <- _; eexists; (split; [reflexivity | discriminate]).
     - destruct (do_delete e k s') as [r s2] eqn:D. intros H; injection H; intros <- <-.
       split; [|discriminate]. right.
-      unfold do_delete in D. destruct (faulty e s'); [|destruct (efaulty e s')]; injection D; intros <- _; eexists; (split; [reflexivity | reflexivity]).
+      unfold do_delete in D. destruct (faulty e s'); [|destruct (pfaulty e s'); [|destruct (efaulty e s')]]; injection D; intros <- _; eexists; (split; [reflexivity | reflexivity]).
     - destruct (do_store e k n s') as [r s2] eqn:D. intros H; injection H; intros <- <-.
       split; [|discriminate]. right.
       unfold do_store in D. destruct (faulty e s'); [|destruct (is_dir _ _); [|destruct (efaulty e s')]]; injection D; intros <- _;
@@ -479,8 +479,9 @@ Section Frame.
       + destruct (do_stat e k0 s') as [r s2] eqn:D. injection Ex; intros <- _.
         rewrite (proj1 (do_stat_spec _ _ _ _ _ D)). exact HP'.
       + destruct (do_delete e k0 s') as [r s2] eqn:D. injection Ex; intros <- _.
-        destruct (do_delete_spec _ _ _ _ _ D) as [-> | ->]; [exact HP'|].
-        rewrite lookup_remove, (not_covered k0 (warranted_namespace o h k0 Hh (Hd k0 eq_refl))). exact HP'.
+        destruct (do_delete_spec _ _ _ _ _ D) as [-> | [-> | [keep ->]]]; [exact HP'| |].
+        * rewrite lookup_remove, (not_covered k0 (warranted_namespace o h k0 Hh (Hd k0 eq_refl))). exact HP'.
+        * rewrite lookup_removep, (not_covered k0 (warranted_namespace o h k0 Hh (Hd k0 eq_refl))). exact HP'.
       + destruct (do_store e k0 n s') as [r s2] eqn:D. injection Ex; intros <- _.
         destruct (do_store_spec _ _ _ _ _ _ D) as [(_ & -> & _)|(-> & _ & _)]; [exact HP'|].
         rewrite lookup_put, (Hst k0 n eq_refl).
@@ -671,19 +672,17 @@ Section LiveFrame.
       + apply under_spec in C. destruct C as [r' Er']. rewrite Er' in Er. vm_compute in Er. discriminate.
   Qed.
 
-  Lemma wrun_live p : forall s h, SP o h p -> Hsound h -> Ilive s ->
-    Ilive (snd (wrun st (iexec e clk fs) p s h)).
+  (** one call of the cleaner on a storage in which the protected keys have their initial nodes: the history
+      stays sound and the protected keys keep their nodes *)
+  Lemma live_step act kont s' h x s1 : SP o h (Do act kont) -> Hsound h -> Ilive s' ->
+    exec e clk act s' = (x, s1) ->
+    SP o ((act, x) :: h) (kont x) /\ Hsound ((act, x) :: h) /\ Ilive s1.
   Proof.
-    induction p as [r|act kont IH]; intros s h HS Hh HI; cbn [wrun]; [exact HI|].
-    inversion HS as [|? ? ? Hd Hst Hk']; subst.
-    destruct (iexec e clk fs act s) as [x s1] eqn:Ex.
-    destruct (iexec_spec e clk fs _ _ _ _ Ex) as (_ & Hlist).
-    unfold iexec in Ex. set (s' := if logs act then interfere fs s else s) in Ex.
-    assert (HI' : Ilive s').
-    { subst s'. destruct (logs act); [|exact HI]. intros q Hq. unfold interfere. cbn [sto].
-      rewrite (apply_at_prot fs _ Hfs _ q Hq). exact (HI q Hq). }
-    clearbody s'.
-    apply IH; [apply Hk'| |].
+    intros HS Hh HI' Ex. inversion HS as [|? ? ? Hd Hst Hk']; subst.
+    assert (Hlist : forall p ks, act = AList p -> x = XList (Some ks) -> Forall (child p) ks).
+    { intros p ks -> ->. cbn [exec] in Ex. destruct (do_list e p s') as [r s2] eqn:D. injection Ex; intros _ Er. subst r.
+      destruct (do_list_spec _ _ _ _ _ D) as [_ Hl]. exact (list_pure_child _ _ _ _ (Hl ks eq_refl)). }
+    split; [apply Hk'|]. split.
     - (* the history stays sound *)
       destruct Hh as (Hh & Hld & Hnw & Hls & Hsd). repeat split.
       + intros p ks [E|Hin]; [|exact (Hh p ks Hin)]. injection E; intros -> ->. exact (Hlist p ks eq_refl eq_refl).
@@ -720,12 +719,16 @@ Section LiveFrame.
       + destruct (do_stat e k0 s') as [r s2] eqn:D. injection Ex; intros <- _.
         intros q Hq. rewrite (proj1 (do_stat_spec _ _ _ _ _ D)). exact (HI' q Hq).
       + destruct (do_delete e k0 s') as [r s2] eqn:D. injection Ex; intros <- _.
-        intros q Hq. destruct (do_delete_spec _ _ _ _ _ D) as [-> | ->]; [exact (HI' q Hq)|].
-        destruct (warranted_spares h k0 Hh (Hd k0 eq_refl)) as [Na Nk].
-        rewrite lookup_remove. destruct (covers k0 q) eqn:C; [|exact (HI' q Hq)].
-        destruct Hq as [->|Hq].
-        * destruct Nk as [Nk|Nk]; [congruence | symmetry; exact Nk].
-        * rewrite (covers_trans _ _ _ C Hq) in Na. discriminate.
+        intros q Hq.
+        assert (Rm : forall b, (if covers k0 q && b then None else lookup (sto s') q) = lookup s0 q).
+        { intros b. destruct (warranted_spares h k0 Hh (Hd k0 eq_refl)) as [Na Nk].
+          destruct (covers k0 q) eqn:C; [|exact (HI' q Hq)]. destruct b; [|exact (HI' q Hq)]. cbn [andb].
+          destruct Hq as [->|Hq].
+          * destruct Nk as [Nk|Nk]; [congruence | symmetry; exact Nk].
+          * rewrite (covers_trans _ _ _ C Hq) in Na. discriminate. }
+        destruct (do_delete_spec _ _ _ _ _ D) as [-> | [-> | [keep ->]]]; [exact (HI' q Hq)| |].
+        * rewrite lookup_remove. specialize (Rm true). rewrite andb_true_r in Rm. exact Rm.
+        * rewrite lookup_removep. apply Rm.
       + destruct (do_store e k0 n s') as [r s2] eqn:D. injection Ex; intros <- _.
         intros q Hq. destruct (do_store_spec _ _ _ _ _ _ D) as [(_ & -> & _)|(-> & _ & _)]; [exact (HI' q Hq)|].
         rewrite lookup_put, (Hst k0 n eq_refl).
@@ -733,6 +736,20 @@ Section LiveFrame.
         rewrite (prot_not_record q Hq). exact (HI' q Hq).
       + injection Ex; intros <- _. exact HI'.
       + injection Ex; intros <- _. exact HI'.
+  Qed.
+
+  Lemma wrun_live p : forall s h, SP o h p -> Hsound h -> Ilive s ->
+    Ilive (snd (wrun st (iexec e clk fs) p s h)).
+  Proof.
+    induction p as [r|act kont IH]; intros s h HS Hh HI; cbn [wrun]; [exact HI|].
+    destruct (iexec e clk fs act s) as [x s1] eqn:Ex.
+    unfold iexec in Ex. set (s' := if logs act then interfere fs s else s) in Ex.
+    assert (HI' : Ilive s').
+    { subst s'. destruct (logs act); [|exact HI]. intros q Hq. unfold interfere. cbn [sto].
+      rewrite (apply_at_prot fs _ Hfs _ q Hq). exact (HI q Hq). }
+    clearbody s'.
+    destruct (live_step act kont s' h x s1 HS Hh HI' Ex) as (HS1 & Hh1 & HI1).
+    exact (IH x s1 _ HS1 Hh1 HI1).
   Qed.
 
   (** the asset keeps its node *)
